@@ -34,7 +34,7 @@ Qed.
 
 Lemma w_wf : forall t, wf_hist wdm wdd (w_hist t).
 Proof.
-  intros t. split; [split |].
+  intros t. split; [| split].
   - cbn. repeat constructor; try discriminate.
   - cbn. intros b1 b2 d1 d2 H1 H2. apply w_functional; cbn in *; intuition.
   - repeat constructor.
@@ -96,28 +96,48 @@ Lemma w_locked_fine :
   fetch_after_restart w_locked 4 = Some (Body (d_body wd4)).
 Proof. vm_compute. repeat split; reflexivity. Qed.
 
-(* ---------- a write that fails with an I/O error (no crash): FileWriter keeps the advanced offset ---------- *)
+(* ---------- a write that fails with an I/O error (no crash) ---------- *)
 Definition w_fault_hist (in_meta : bool) (cut : nat) : list hop :=
   [HRestart; HBulk wb1; HFault wb2 in_meta cut; HBulk wb3; HRestart].
+(* ... and the process dies inside the rollback (a bytes of docs, c of meta left), start, bulk, start *)
+Definition w_fault_crash_hist (a c : nat) : list hop :=
+  [HRestart; HBulk wb1; HFaultCrash wb2 a c; HRestart; HBulk wb3; HRestart].
 
-Definition live_fetch (h : list hop) (id : N) : option fetched := final_fetch (run wdm h) id.
+Lemma w_fault_wf : forall fm cut, wf_hist wdm wdd (w_fault_hist fm cut).
+Proof.
+  intros. split; [| split].
+  - cbn. repeat constructor; try discriminate.
+  - cbn. intros b1 b2 d1 d2 H1 H2. apply w_functional; cbn in *; intuition.
+  - repeat constructor.
+Qed.
+Lemma w_fault_crash_wf : forall a, wf_hist wdm wdd (w_fault_crash_hist a 34).
+Proof.
+  intros. split; [| split].
+  - cbn. repeat constructor; try discriminate.
+  - cbn. intros b1 b2 d1 d2 H1 H2. apply w_functional; cbn in *; intuition.
+  - repeat constructor.
+Qed.
 
-(* docs write fails after 2 bytes: bulk 3 is acknowledged and readable while the store runs ... *)
+(* repaired write path (rollback): the later bulk stays intact, the failed one is absent *)
+Lemma w_fault_repaired :
+  final_fetch (run wdm (w_fault_hist false 2)) 3 = Some (Body (d_body wd3)) /\
+  final_fetch (run wdm (w_fault_hist true 34)) 3 = Some (Body (d_body wd3)) /\
+  final_fetch (run wdm (w_fault_hist true 34)) 2 = Some Absent /\
+  final_fetch (run wdm (w_fault_crash_hist 0 34)) 3 = Some (Body (d_body wd3)) /\   (* docs cut, meta not yet *)
+  final_fetch (run wdm (w_fault_crash_hist 36 34)) 3 = Some (Body (d_body wd3)).      (* power loss before the rollback *)
+Proof. vm_compute. repeat split; reflexivity. Qed.
+
+(* write path before commit ce3aaa8 (run_f0): docs write fails after 2 bytes: bulk 3 is acknowledged
+   and readable while the store runs ... *)
 Lemma w_fault_docs_live :
-  live_fetch [HRestart; HBulk wb1; HFault wb2 false 2; HBulk wb3] 3 = Some (Body (d_body wd3)).
+  final_fetch (run_f0 wdm [HRestart; HBulk wb1; HFault wb2 false 2; HBulk wb3]) 3 = Some (Body (d_body wd3)).
 Proof. vm_compute. reflexivity. Qed.
 (* ... after a restart it is not, and the meta file no longer describes the docs file *)
 Lemma w_fault_docs_restart :
-  final_fetch (run wdm (w_fault_hist false 2)) 3 = Some FetchErr /\
-  match run wdm [HRestart; HBulk wb1; HFault wb2 false 2; HBulk wb3] with
+  final_fetch (run_f0 wdm (w_fault_hist false 2)) 3 = Some FetchErr /\
+  match run_f0 wdm [HRestart; HBulk wb1; HFault wb2 false 2; HBulk wb3] with
   | Ok s => meta_describes_docs (meta (s_disk s)) = false | _ => False end.
 Proof. vm_compute. split; reflexivity. Qed.
 (* meta write fails after 34 bytes (complete header): the next start parses a block inside the hole and dies *)
-Lemma w_fault_meta_restart : run wdm (w_fault_hist true 34) = Panic.
+Lemma w_fault_meta_restart : run_f0 wdm (w_fault_hist true 34) = Panic.
 Proof. vm_compute. reflexivity. Qed.
-Lemma w_fault_wf : forall fm cut, wf_hist_faulty wdm wdd (w_fault_hist fm cut).
-Proof.
-  intros. split.
-  - cbn. repeat constructor; try discriminate.
-  - cbn. intros b1 b2 d1 d2 H1 H2. apply w_functional; cbn in *; intuition.
-Qed.
